@@ -447,9 +447,32 @@ def gen_search(rng, force=None):
     thr.append(t)
   if all(t is None for t in thr):
     thr[0] = -100.0 if objectives[0] == "maximize" else 100.0
+  degenerate = []
+  if rng.random() < 0.35:
+    # degenerate constraint metrics: CONSTANT over the history (a saturated / clipped score), or constant up to 2^-30, at negative, positive, small and
+    # large values, with a threshold that every observation satisfies, every observation violates, or that equals the constant.  Their scaled image is
+    # the fallback arm of the normalisation (half width below 1e-8: scale 1 / max|v| beyond 1, else 1); who satisfies the threshold is read off the raw values.
+    if nm == 1:      # next to a metric that varies: the split is then decided by the other metric, and the degenerate one must not disturb it
+      nm = 2
+      for row in values:
+        row.append(float(rng.randint(-8, 8)))
+      objectives.append(rng.choice(["maximize", "minimize"]))
+      thr.append(None)
+    deg = rng.sample(range(nm), rng.choice([1, 1, 1, nm - 1, nm]))
+    for k in range(nm):
+      if k not in deg and rng.random() < 0.8:      # the varied metrics split the history roughly in half
+        thr[k] = float(rng.randint(-3, 3)) + rng.choice([0.0, 0.5])
+    for k in deg:
+      c = rng.choice([-40.0, -5.0, -5.0, -2.5, -1.5, -1.0, -0.5, 0.0, 0.5, 1.0, 1.5, 3.0, 5.0, 40.0])
+      wobble = rng.random() < 0.25
+      for row in values:
+        row[k] = c + (rng.randint(0, 3) * 2.0 ** -30 if wobble else 0.0)
+      better = 1.0 if objectives[k] == "minimize" else -1.0      # a threshold on the easy side is satisfied by every observation
+      thr[k] = rng.choice([c + better * d for d in (0.5, 1.0, 2.0, 100.0)] * 2 + [c - better * d for d in (0.5, 1.0, 100.0)] + [c])
+      degenerate.append(k)
   pts = gen_cat_points(rng, comps, n)
   x = one_hot_rows(comps, gen_cat_points(rng, comps, 1))[0]
-  return dict(comps=comps, pts=pts, values=values, objectives=objectives, thresholds=thr, metric=rng.randrange(nm), x=x, mode=mode)
+  return dict(comps=comps, pts=pts, values=values, objectives=objectives, thresholds=thr, metric=rng.randrange(nm), x=x, mode=mode, degenerate=degenerate)
 
 
 DYADIC_LS = [0.25, 0.5, 1.0, 1.0, 2.0, 4.0]
@@ -1113,6 +1136,25 @@ def no_violator_cases():
 NO_VIOLATOR_CASES = no_violator_cases()
 
 
+def degenerate_metric_cases():
+  """Deterministic requests with a CONSTANT constraint metric next to one that varies (20 observations on a 1-d domain, the varied metric splits them 9 / 11):
+  the constant at -40, -5, -1.5, -1, -0.5, 0, 0.5, 1, 5, either objective, with a threshold that every observation satisfies (the varied metric then decides
+  the split: forced, lower = its 9 satisfiers) or that every observation violates (nobody satisfies: the constructor's split stays)."""
+  n, out = 20, []
+  base = dict(comps=[{"var_type": "double", "elements": [0.0, 6.0]}], pts=[[(i * 7 % 25) / 4.0] for i in range(n)], metric=1, x=[2.5], mode="mixed", degenerate=[0])
+  varied = [float(i * 11 % 17 - 8) for i in range(n)]
+  for c in (-40.0, -5.0, -1.5, -1.0, -0.5, 0.0, 0.5, 1.0, 5.0):
+    for ob in ("maximize", "minimize"):
+      easy = c - 1.0 if ob == "maximize" else c + 1.0
+      hard = c + 1.0 if ob == "maximize" else c - 1.0
+      for t in (easy, hard):
+        out.append(dict(base, values=[[c, v] for v in varied], objectives=[ob, "maximize"], thresholds=[t, 0.5]))
+  return out
+
+
+DEGENERATE_METRIC_CASES = degenerate_metric_cases()
+
+
 def widen(rng, kind, inp):
   """Real floats of many magnitudes / larger sizes for the searcher."""
   if kind == "split":
@@ -1141,7 +1183,8 @@ def widen(rng, kind, inp):
     inp["factor"] = rng.choice([1.0, 2.0, 5.0, 10.0, rng.uniform(0.01, 20)])
     return inp
   if kind == "search":
-    inp["values"] = [[v + rng.choice([0.0, rng.gauss(0, 1)]) for v in row] for row in inp["values"]]
+    keep = set(inp.get("degenerate", []))     # a constant metric stays constant
+    inp["values"] = [[v if k in keep else v + rng.choice([0.0, rng.gauss(0, 1)]) for k, v in enumerate(row)] for row in inp["values"]]
     return inp
   if kind == "hist":
     return widen_hist(rng, inp)
@@ -1222,9 +1265,16 @@ def search(ctx, hints, broken):
   for w in NO_VIOLATOR_CASES:                   # no observation violates a threshold (the defect repaired by 'fix: SPE search forces ...'), every run
     n += 1
     note(oracle("search", w))
+  for w in DEGENERATE_METRIC_CASES:             # a constant constraint metric (any sign and size) with a threshold on it, every run
+    n += 1
+    note(oracle("search", w))
+    if new >= 3:
+      break
   budget = ctx.n(4000, 60000) * (3 if broken else 1)
   rng = ctx.rng
   for _ in range(budget):
+    if new >= 3:
+      break
     kind, inp = gen_case(rng)
     if rng.random() < 0.6:
       inp = widen(rng, kind, inp)
@@ -1259,3 +1309,8 @@ LEVEL_NOTE = ("Exact arithmetic over Q; floating-point rounding of int(gamma*n) 
               "within 1e-9 of an integer); kernel validity is an input contract (C03); harness and check function trusted; no axioms")
 TECHNIQUE = "Coq proof (induction, permutation / sortedness lemmas, field arithmetic over Q) on executable model + in-Coq differential correspondence"
 DESIGN_REF = "DESIGN.md section 7, C16"
+
+# --- gap round (seeded C16_m12): additions to the claimed level
+LEVEL_TEXT += ("; the search variant's cases include DEGENERATE constraint metrics - constant over the history (or constant up to 2^-30) at negative / positive / small / large values, next to "
+               "metrics that vary, with a threshold every observation satisfies, every observation violates, or equal to the constant (correspondence and searcher, plus 36 deterministic requests "
+               "on every run): who satisfies a threshold is read off the RAW values by the searcher, so the fallback arms of the metric normalisation (C12) are exercised through the view")
